@@ -1,1 +1,2 @@
 import GeoVerif.Props.C04
+import GeoVerif.Props.C07
